@@ -120,9 +120,13 @@ func c16EciesCase(r *mon.R, G c16eg, l, rep int) {
 	// (1) encryption: ECIES protects every length
 	var ct []byte
 	var err error
-	if !c.call("Encrypt", "honest", func() { ct, err = ecies.Encrypt(g, X, append([]byte(nil), msg...), hf) }) {
+	msgIn := append([]byte(nil), msg...)
+	encSnap := c16Snap().add("public-key", c16P(X)).add("message", c16S(&msgIn))
+	if !c.call("Encrypt", "honest", func() { ct, err = ecies.Encrypt(g, X, msgIn, hf) }) {
 		return
 	}
+	c.intact(encSnap, "Encrypt", "honest", err != nil)
+	ct = append([]byte(nil), ct...) // our own copy: the returned slice is not an input of later calls
 	c.eval("encrypt/accepted", "enc", true)
 	if err != nil {
 		r.Violation(c.key("Encrypt", "refused-protectable-message"), "ecies.Encrypt refused a message it can protect: "+err.Error(), c.det())
@@ -138,7 +142,11 @@ func c16EciesCase(r *mon.R, G c16eg, l, rep int) {
 
 	// (1b) round trip
 	dec := func(op, class string, key kyber.Scalar, cc []byte, h func() hash.Hash, kv ...any) (pt []byte, e error, ok bool) {
+		sn := c16Snap().add("ciphertext", c16S(&cc)).add("private-key", c16P(key))
 		ok = c.call(op, class, func() { pt, e = ecies.Decrypt(g, key, cc, h) }, kv...)
+		if ok {
+			c.intact(sn, op, class, e != nil, kv...)
+		}
 		return
 	}
 	pt, err, ok := dec("Decrypt", "roundtrip", x, append([]byte(nil), ct...), hf)
@@ -154,6 +162,16 @@ func c16EciesCase(r *mon.R, G c16eg, l, rep int) {
 	}
 	if rep == 0 {
 		r.SampleClass("ecies:"+G.name+":"+c16LenClass(l), map[string]any{"scheme": "ecies", "group": G.name, "len": l, "hash": hname, "ct_len": len(ct), "regions": fmt.Sprint(regs), "roundtrip": err == nil && bytes.Equal(pt, msg)})
+	}
+
+	// (1c) the same ciphertext object decrypted again, and once more after a failed wrong-key attempt
+	{
+		obj := append([]byte(nil), ct...)
+		other := g.Scalar().Add(x, g.Scalar().One())
+		c.repeat("Decrypt", msg, mclass == "random",
+			func() ([]byte, error) { return ecies.Decrypt(g, x, obj, hf) },
+			func() ([]byte, error) { return ecies.Decrypt(g, other, obj, hf) },
+			func() []byte { return obj })
 	}
 
 	// (2) wrong keys
